@@ -201,12 +201,14 @@ func c15Addressing(c *Ctx, p *Prog, db *dbModel) {
 	c.extra["addressing_evaluations"] = evals
 }
 
-func c15Colours(c *Ctx, p *Prog, db *dbModel) {
+func c15Colours(c *Ctx, p *Prog, db *dbModel) { coloursRule(c, p, db, "C15-R3") }
+
+func coloursRule(c *Ctx, p *Prog, db *dbModel, rule string) {
 	n := 0
 	for _, e := range db.entries {
 		colors := int(e.Int["Colors"])
 		if colors == 0 {
-			c.Trivial("C15-R3", e.Name+":mono", p.pos(e.Pos), "monochrome entry")
+			c.Trivial(rule, e.Name+":mono", p.pos(e.Pos), "monochrome entry")
 			continue
 		}
 		for _, f := range []string{"SetFg", "SetBg", "SetFgBg", "ResetFgBg", "SetFgRGB", "SetBgRGB", "SetFgBgRGB"} {
@@ -216,10 +218,12 @@ func c15Colours(c *Ctx, p *Prog, db *dbModel) {
 			}
 			n++
 			msg := checkColourProgram(f, s, colors)
-			c.Check(msg == "", "C15-R3", e.Name+":"+f, p.pos(e.Pos), fmt.Sprintf("%q over %d colours %s", s, colors, msg))
+			c.Check(msg == "", rule, e.Name+":"+f, p.pos(e.Pos), fmt.Sprintf("%q over %d colours %s", s, colors, msg))
 		}
 	}
-	c.extra["colour_programs"] = n
+	if rule == "C15-R3" {
+		c.extra["colour_programs"] = n
+	}
 }
 
 // atomsOf collects the canonical comparison atoms of all branch conditions in fn.
@@ -391,10 +395,12 @@ func c15TPuts(c *Ctx, p *Prog) {
 // markers.  strings.Index(s, M) = i: text before is s[:i]; the rest starts at
 // i+len(M).  A skip shorter than the marker leaves marker bytes in the output
 // (or re-scans them), a longer one swallows payload bytes.
-func c15TPutsSegments(c *Ctx, p *Prog) {
+func c15TPutsSegments(c *Ctx, p *Prog) { tputsSegmentsRule(c, p, "C15-R5") }
+
+func tputsSegmentsRule(c *Ctx, p *Prog, rule string) {
 	fn := p.Fn("terminfo:(*Terminfo).TPuts")
 	if fn == nil {
-		c.Undecided("C15-R5", "TPuts", "-", "not found")
+		c.Undecided(rule, "TPuts", "-", "not found")
 		return
 	}
 	type idxInfo struct {
@@ -406,14 +412,14 @@ func c15TPutsSegments(c *Ctx, p *Prog) {
 		if call, ok := in.(*ssa.Call); ok && calleeName(&call.Call) == "strings.Index" && len(call.Call.Args) == 2 {
 			m, ok := constString(call.Call.Args[1])
 			if !ok {
-				c.Undecided("C15-R5", "TPuts:marker", p.pos(in.Pos()), "strings.Index with a non-constant marker")
+				c.Undecided(rule, "TPuts:marker", p.pos(in.Pos()), "strings.Index with a non-constant marker")
 				return
 			}
 			idxs = append(idxs, idxInfo{call, m})
 		}
 	})
 	if len(idxs) != 2 {
-		c.Undecided("C15-R5", "TPuts:markers", p.pos(fn.Pos()), fmt.Sprintf("expected the opening and the closing marker search, found %d", len(idxs)))
+		c.Undecided(rule, "TPuts:markers", p.pos(fn.Pos()), fmt.Sprintf("expected the opening and the closing marker search, found %d", len(idxs)))
 		return
 	}
 	role := func(i int) string {
@@ -430,7 +436,7 @@ func c15TPutsSegments(c *Ctx, p *Prog) {
 		}
 		return 0, false
 	}
-	c.Check(idxs[0].marker == "$<" && idxs[1].marker == ">", "C15-R5", "TPuts:markers", p.pos(idxs[0].call.Pos()),
+	c.Check(idxs[0].marker == "$<" && idxs[1].marker == ">", rule, "TPuts:markers", p.pos(idxs[0].call.Pos()),
 		fmt.Sprintf("padding is delimited by %q and %q", idxs[0].marker, idxs[1].marker))
 	// the terminator is searched in the string that starts right after the marker
 	sawSkip := map[int]bool{}
@@ -451,23 +457,23 @@ func c15TPutsSegments(c *Ctx, p *Prog) {
 			}
 			if i, ok := markerOf(base); ok {
 				sawSkip[i] = true
-				c.Check(k == int64(len(idxs[i].marker)) && idxs[i].call.Call.Args[0] == sl.X, "C15-R5", "TPuts:skip-"+role(i), p.pos(in.Pos()),
+				c.Check(k == int64(len(idxs[i].marker)) && idxs[i].call.Call.Args[0] == sl.X, rule, "TPuts:skip-"+role(i), p.pos(in.Pos()),
 					fmt.Sprintf("the rest of the string starts %d byte(s) after the position of %q (its length is %d)", k, idxs[i].marker, len(idxs[i].marker)))
 			}
 		}
 		if sl.Low == nil && sl.High != nil {
 			if i, ok := markerOf(sl.High); ok {
 				sawPrefix[i] = true
-				c.Check(idxs[i].call.Call.Args[0] == sl.X, "C15-R5", "TPuts:before-"+role(i), p.pos(in.Pos()), "the text before the "+role(i)+" is the prefix up to its position in the same string")
+				c.Check(idxs[i].call.Call.Args[0] == sl.X, rule, "TPuts:before-"+role(i), p.pos(in.Pos()), "the text before the "+role(i)+" is the prefix up to its position in the same string")
 			}
 		}
 	})
 	for i := 0; i < 2; i++ {
 		if !sawSkip[i] {
-			c.Fail("C15-R5", "TPuts:skip-"+role(i), p.pos(fn.Pos()), "no reslice past the "+role(i))
+			c.Fail(rule, "TPuts:skip-"+role(i), p.pos(fn.Pos()), "no reslice past the "+role(i))
 		}
 		if !sawPrefix[i] {
-			c.Fail("C15-R5", "TPuts:before-"+role(i), p.pos(fn.Pos()), "the text before the "+role(i)+" is never taken")
+			c.Fail(rule, "TPuts:before-"+role(i), p.pos(fn.Pos()), "the text before the "+role(i)+" is never taken")
 		}
 	}
 	// the search for the terminator runs on the string that follows the marker
@@ -478,9 +484,9 @@ func c15TPutsSegments(c *Ctx, p *Prog) {
 			}
 			return 0, false
 		}()
-		c.Check(isAfter, "C15-R5", "TPuts:terminator-searched-after-marker", p.pos(idxs[1].call.Pos()), "the terminator is searched in the text following the marker")
+		c.Check(isAfter, rule, "TPuts:terminator-searched-after-marker", p.pos(idxs[1].call.Pos()), "the terminator is searched in the text following the marker")
 	} else {
-		c.Fail("C15-R5", "TPuts:terminator-searched-after-marker", p.pos(idxs[1].call.Pos()), "the terminator is not searched in the text following the marker")
+		c.Fail(rule, "TPuts:terminator-searched-after-marker", p.pos(idxs[1].call.Pos()), "the terminator is not searched in the text following the marker")
 	}
 	// writes: classify every io.WriteString argument
 	nWrites := 0
@@ -505,7 +511,7 @@ func c15TPutsSegments(c *Ctx, p *Prog) {
 					// "$<" + rest, under end < 0
 					rest, isSl := x.Y.(*ssa.Slice)
 					good := m == idxs[0].marker && isSl && rest == idxs[1].call.Call.Args[0] && hasAtom(g, Atom{valName(idxs[1].call), "<", "0"})
-					c.Check(good, "C15-R5", "TPuts:unterminated-verbatim", p.pos(in.Pos()), fmt.Sprintf("an unterminated specification is written as %q followed by the text after the marker", m))
+					c.Check(good, rule, "TPuts:unterminated-verbatim", p.pos(in.Pos()), fmt.Sprintf("an unterminated specification is written as %q followed by the text after the marker", m))
 					okVerbatim = good
 					return
 				}
@@ -520,12 +526,12 @@ func c15TPutsSegments(c *Ctx, p *Prog) {
 			okWhole = true
 			return
 		}
-		c.Fail("C15-R5", "TPuts:write:"+valName(arg), p.pos(in.Pos()), "a write that is neither the text before a marker, the unterminated remainder, nor the padding-free string")
+		c.Fail(rule, "TPuts:write:"+valName(arg), p.pos(in.Pos()), "a write that is neither the text before a marker, the unterminated remainder, nor the padding-free string")
 	})
-	c.Check(okWhole, "C15-R5", "TPuts:no-padding-verbatim", p.pos(fn.Pos()), "a string without a padding marker is written whole")
-	c.Check(okPrefix, "C15-R5", "TPuts:prefix-written", p.pos(fn.Pos()), "the text before each padding marker is written")
+	c.Check(okWhole, rule, "TPuts:no-padding-verbatim", p.pos(fn.Pos()), "a string without a padding marker is written whole")
+	c.Check(okPrefix, rule, "TPuts:prefix-written", p.pos(fn.Pos()), "the text before each padding marker is written")
 	if !okVerbatim {
-		c.Fail("C15-R5", "TPuts:unterminated-verbatim", p.pos(fn.Pos()), "no write of the unterminated remainder")
+		c.Fail(rule, "TPuts:unterminated-verbatim", p.pos(fn.Pos()), "no write of the unterminated remainder")
 	}
 	// sleep only with a pad character
 	eachInstr(fn, func(in ssa.Instruction) {
@@ -540,6 +546,6 @@ func c15TPutsSegments(c *Ctx, p *Prog) {
 				ok = true
 			}
 		}
-		c.Check(ok, "C15-R5", "TPuts:sleep-needs-padchar", p.pos(in.Pos()), fmt.Sprintf("guards at the sleep: %v", g))
+		c.Check(ok, rule, "TPuts:sleep-needs-padchar", p.pos(in.Pos()), fmt.Sprintf("guards at the sleep: %v", g))
 	})
 }
